@@ -18,9 +18,149 @@ class ExtractError(Exception):
     pass
 
 
+# ----------------------------------------------------------------------------- alpha-normalisation
+# The generators read DATA out of statements whose variables have the names they had when the mirror
+# models were written.  A consistent renaming of the parameters and local variables of a function is not
+# a change of the program, so before a file is handed to a generator every function whose binder list
+# (parameters, `let` / `for` / simple closure binders, in order of appearance) is recorded in
+# tools/gen/binders.json and has the SAME LENGTH now is renamed back, binder by binder, to the recorded
+# names.  Any bijective, capture-free renaming yields an alpha-equivalent function, so whatever the
+# generators then read is read off a program with the same meaning; when the renaming cannot be made
+# bijective and capture-free the text is left alone (and the generators' patterns decide).
+BINDERS_FILE = os.path.join(os.path.dirname(os.path.abspath(__file__)), "gen", "binders.json")
+CANON_FILES = ["lightmotif/src/pli/platform/avx2.rs", "lightmotif/src/pli/platform/sse2.rs", "lightmotif/src/pli/mod.rs",
+               "lightmotif/src/pli/dispatch.rs", "lightmotif/src/pwm/dist.rs"]
+_KEYWORDS = {"mut", "ref", "_", "self", "Self", "true", "false", "box"}
+
+
+def _fn_items(src):
+    """(name, start, end) of every `fn` item that has a body, outermost first"""
+    items = []
+    for m in re.finditer(r"\bfn\s+(\w+)", src):
+        i, depth = m.end(), 0
+        while i < len(src):
+            c = src[i]
+            if c in "([":
+                depth += 1
+            elif c in ")]":
+                depth -= 1
+            elif c == ";" and depth == 0:
+                i = -1
+                break
+            elif c == "{" and depth == 0:
+                break
+            i += 1
+        if i < 0 or i >= len(src):
+            continue
+        d, j = 0, i
+        while j < len(src):
+            if src[j] == "{":
+                d += 1
+            elif src[j] == "}":
+                d -= 1
+                if d == 0:
+                    break
+            j += 1
+        items.append((m.group(1), m.start(), j + 1))
+    return items
+
+
+def _idents(pat):
+    return [x for x in re.findall(r"[A-Za-z_]\w*", pat) if x not in _KEYWORDS]
+
+
+def binders_of(item):
+    """binder names of a function item, in order of appearance"""
+    out = []
+    mp = re.search(r"\bfn\s+\w+\s*(?:<[^(]*>)?\s*\(", item)
+    if mp:
+        depth, j = 1, mp.end()
+        while j < len(item) and depth:
+            depth += item[j] in "([" 
+            depth -= item[j] in ")]"
+            j += 1
+        params = item[mp.end():j - 1]
+        # top-level `name: type` pairs
+        d, cur, parts = 0, [], []
+        for ch in params:
+            if ch in "(<[":
+                d += 1
+            elif ch in ")>]":
+                d -= 1
+            if ch == "," and d == 0:
+                parts.append("".join(cur)); cur = []
+            else:
+                cur.append(ch)
+        parts.append("".join(cur))
+        for p_ in parts:
+            if ":" in p_:
+                out += [(mp.end(), n) for n in _idents(p_.split(":", 1)[0])]
+    for m in re.finditer(r"\blet\s+(?:mut\s+)?([A-Za-z_]\w*)\b|\blet\s+\(([^)]*)\)|\bfor\s+([A-Za-z_]\w*)\s+in\b|\bfor\s+\(([^)]*)\)\s+in\b"
+                         r"|\|\s*&?\s*(?:mut\s+)?([A-Za-z_]\w*)\s*\||\|\s*&?\(?\s*([A-Za-z_]\w*)\s*,\s*&?([A-Za-z_]\w*)\s*\)?\s*\|", item):
+        for g in m.groups():
+            if g:
+                out += [(m.start(), n) for n in _idents(g)]
+    out.sort(key=lambda x: x[0])
+    return [n for _, n in out if n not in _KEYWORDS]
+
+
+def canon(rel, src):
+    try:
+        ref_all = json.load(open(BINDERS_FILE)).get(rel, {})
+    except Exception:
+        return src
+    if not ref_all:
+        return src
+    pieces, last = [], 0
+    done_until = 0
+    for name, a, b in _fn_items(src):
+        if a < done_until or name not in ref_all:
+            continue
+        item = src[a:b]
+        cur, ref = binders_of(item), ref_all[name]
+        if len(cur) == len(ref) and cur != ref:
+            mp = {}
+            ok = True
+            for c_, r_ in zip(cur, ref):
+                if mp.setdefault(c_, r_) != r_:
+                    ok = False
+            if ok and len(set(mp.values())) == len(mp):
+                mp = {c_: r_ for c_, r_ in mp.items() if c_ != r_}
+                # capture: a new name must not already occur in the item as something that stays
+                others = set(re.findall(r"[A-Za-z_]\w*", item)) - set(mp)
+                if mp and not (set(mp.values()) & others):
+                    rx = re.compile(r"(?<![\.\w])(?<!::)(" + "|".join(map(re.escape, sorted(mp, key=len, reverse=True))) + r")(?!\w)(?!\s*::)")
+                    item = rx.sub(lambda m_: mp[m_.group(1)], item)
+        pieces.append(src[last:a]); pieces.append(item); last = b
+        done_until = b
+    pieces.append(src[last:])
+    return "".join(pieces)
+
+
 def read(rel):
     with open(os.path.join(REPO, rel)) as f:
-        return f.read()
+        text = f.read()
+    return canon(rel, text) if rel in CANON_FILES else text
+
+
+def record_binders():
+    ref = {}
+    for rel in CANON_FILES:
+        with open(os.path.join(REPO, rel)) as f:
+            src = f.read()
+        fns, until = {}, 0
+        for name, a, b in _fn_items(src):
+            if a < until:
+                continue
+            until = b
+            if name in fns:
+                fns[name] = None          # overloaded name (several impls): not normalised
+            else:
+                fns[name] = binders_of(src[a:b])
+        ref[rel] = {k: v for k, v in fns.items() if v}
+    with open(BINDERS_FILE, "w") as f:
+        json.dump(ref, f, indent=0, sort_keys=True)
+    print(json.dumps({"recorded": {k: len(v) for k, v in ref.items()}}))
 
 
 def strip_comments(src):
@@ -130,4 +270,7 @@ def main():
 if __name__ == "__main__":
     sys.path.insert(0, os.path.dirname(os.path.abspath(__file__)))
     import extract  # noqa: F401  (so that generators importing `extract` see this module)
-    main()
+    if "--record-binders" in sys.argv:
+        record_binders()
+    else:
+        main()
